@@ -220,8 +220,6 @@ func TestC33(t *testing.T) {
 			}
 		}
 	}
-	if rec.Get("reallocs_judged") < 500 || rec.Get("reallocs_judged_on_numa_node") < 100 {
-		rec.Inconclusive("too few re-allocations judged (%d, %d on NUMA nodes)", rec.Get("reallocs_judged"), rec.Get("reallocs_judged_on_numa_node"))
-	}
+	// minimum-observation thresholds are run-level (all batches merged): MIN_OBSERVED in checks_table.py, applied by the driver
 	_ = sort.Strings
 }
